@@ -266,7 +266,11 @@ class RaggedArray(IndexableArray, np.lib.mixins.NDArrayOperatorsMixin):
             if self._shape.lengths[-1] == 0:
                 first_last_empty_row = np.searchsorted(self._shape.starts, self._shape.starts[-1], side='left')
                 result = ufunc.reduceat(self.ravel(), self._shape.starts[:first_last_empty_row])
-                result = np.pad(result, (0, len(self._shape.starts)-first_last_empty_row), constant_values=identity)
+                fill = identity
+                if fill is None:
+                    # max / min have no identity: what is reported for an empty row is arbitrary, as for empty rows elsewhere
+                    fill = np.nan if np.issubdtype(result.dtype, np.floating) else 0
+                result = np.pad(result, (0, len(self._shape.starts)-first_last_empty_row), constant_values=fill)
             else:
                 result = ufunc.reduceat(self.ravel(), self._shape.starts)
 
